@@ -34,6 +34,10 @@ type Cmd struct {
 
 // Start starts the command.
 func (c *Cmd) Start() {
+	if verifOnStart(c) {
+		return
+	}
+
 	if c.OnExit == nil {
 		c.OnExit = func(_ error) {}
 	}
@@ -47,6 +51,10 @@ func (c *Cmd) Start() {
 
 // Close closes the command. It doesn't wait for the command to exit.
 func (c *Cmd) Close() {
+	if verifOnClose(c) {
+		return
+	}
+
 	close(c.terminate)
 }
 
